@@ -13,7 +13,7 @@ import (
 
 func init() {
 	register(&Prop{ID: "C05", Run: runC05, MinNontrivial: 500,
-		Rule:        "cases = IdP-signed (or skip-config) responses with 1-3 assertions whose time bounds sit at chosen distances (-1s,-1ns,0,+1ns,+1s and far) from the SP's fake clock; a focus bound (subject-confirmation NotOnOrAfter of assertion i, Conditions NotBefore / NotOnOrAfter of assertion 0) is probed at all five positions while the other bounds are drawn around it incl. equalities; bounds rendered with Z / +00:00 / +05:30 / -08:00 offsets and 0/1/3/6/9 fractional digits; missing, empty and malformed bounds; oracle: Expired error iff some now >= sc[i], InvalidTime iff now < NotBefore or now >= NotOnOrAfter of assertion 0, typed rejection for missing/unparsable; non-trivial = signature processing passed and the time logic decided the outcome; distinct by (focus, delta, layout of bounds); bounds on the wrong side of the clock incl. the zero instant 0001-01-01T00:00:00Z and the Unix epoch; hour-24, second-60, month-13 and negative-year forms among the malformed ones; NotBefore on the bearer confirmation data; bounds with 10-33 fractional digits; first assertion without AttributeStatement; VerifyAssertionConditions on the returned assertion after the clock moved across each bound; SessionNotOnOrAfter before / after the clock; malformed bounds that are a complete RFC 3339 instant with a suffix or prefix (zone names in brackets, blanks, designators), basic / ordinal / minute-precision ISO 8601 forms",
+		Rule:        "cases = IdP-signed (or skip-config) responses with 1-3 assertions whose time bounds sit at chosen distances (-1s,-1ns,0,+1ns,+1s and far) from the SP's fake clock; a focus bound (subject-confirmation NotOnOrAfter of assertion i, Conditions NotBefore / NotOnOrAfter of assertion 0) is probed at all five positions while the other bounds are drawn around it incl. equalities; bounds rendered with Z / +00:00 / +05:30 / -08:00 offsets and 0/1/3/6/9 fractional digits; missing, empty and malformed bounds; oracle: Expired error iff some now >= sc[i], InvalidTime iff now < NotBefore or now >= NotOnOrAfter of assertion 0, typed rejection for missing/unparsable; non-trivial = signature processing passed and the time logic decided the outcome; distinct by (focus, delta, layout of bounds); bounds on the wrong side of the clock incl. the zero instant 0001-01-01T00:00:00Z and the Unix epoch; hour-24, second-60, month-13 and negative-year forms among the malformed ones; NotBefore on the bearer confirmation data; bounds with 10-33 fractional digits; first assertion without AttributeStatement; VerifyAssertionConditions on the returned assertion after the clock moved across each bound; SessionNotOnOrAfter before / after the clock; malformed bounds that are a complete RFC 3339 instant with a suffix or prefix (zone names in brackets, blanks, designators), basic / ordinal / minute-precision ISO 8601 forms; the first assertion's other conditions (foreign / absent audience, one-time use, proxy restriction) varied in a third of the cases",
 		Assumptions: []string{"instants are compared as time.Time built from the record, never from the string", "wall time is decades away from every window, so a consultation of wall time changes the outcome"}})
 }
 
@@ -211,6 +211,26 @@ func runC05(c *mon.Ctx) {
 				a.Cond.NotOnOrAfter = sim.S(sim.TS(now.Add(-time.Hour)))
 			}
 		}
+		otherWarnings := ""
+		if r.IntN(3) == 0 && len(rec.Assertions) > 0 && rec.Assertions[0].Cond != nil {
+			// the other conditions of the first assertion raise their own warnings (an audience that is not the SP's, none
+			// at all, one-time use, a proxy restriction): the time warning is decided by the clock all the same
+			c0 := rec.Assertions[0].Cond
+			switch r.IntN(5) {
+			case 0:
+				c0.Restrictions = [][]string{{"https://someone-else.example.test/audience"}}
+			case 1:
+				c0.Restrictions = [][]string{{Audience}, {"urn:other"}, {}}
+			case 2:
+				c0.Restrictions = nil
+			case 3:
+				c0.OneTimeUse = true
+				c0.Restrictions = [][]string{{"urn:other", "urn:another"}}
+			case 4:
+				c0.Proxy = &sim.Proxy{Count: sim.S("0"), Audiences: []string{"urn:other"}}
+			}
+			otherWarnings = fmt.Sprintf(" restrictions=%q otu=%v proxy=%v", c0.Restrictions, c0.OneTimeUse, c0.Proxy != nil)
+		}
 		skip := r.IntN(5) == 0
 		signer := w.IdP[2]
 		if r.IntN(6) == 0 {
@@ -236,7 +256,7 @@ func runC05(c *mon.Ctx) {
 			cs.Note("%v", err)
 			continue
 		}
-		cs.Desc("now=%s na=%d focus=%s[%d] delta=%v kind=%s sc=%v nb=%v nooa=%v place=%s skip=%v", now.Format(time.RFC3339Nano), na, focus, focusIdx, fdelta, badKind, boundTexts(sc), strOrAbsent(nb.text), strOrAbsent(nooa.text), place, skip)
+		cs.Desc("now=%s na=%d focus=%s[%d] delta=%v kind=%s sc=%v nb=%v nooa=%v place=%s skip=%v%s", now.Format(time.RFC3339Nano), na, focus, focusIdx, fdelta, badKind, boundTexts(sc), strOrAbsent(nb.text), strOrAbsent(nooa.text), place, skip, otherWarnings)
 		cs.Input([]byte(xml))
 		sp, clk, _ := pool.SPSource(k, now, signer)
 		sp.AllowMissingAttributes = withoutAttrs
